@@ -968,6 +968,14 @@ theorem C13_hooks_regenerated (t : String) (q : List String) : hooksOfTypeG t q 
       · simp [h1, h2, h3, Hook.placed]
       · simp [h1, h2, h3]
 
+/-- the v0.2.0 → v0.3.0 migration of `service::telemetry` (taken when the strict v0.3.0 decode of a section fails, e.g. OTLP `headers`
+written as a mapping): every field-to-field assignment / composite-literal entry of the `…V02ToV03` functions (regenerated list) copies
+the source field OF THE SAME NAME — a written legacy-shaped setting lands in its own v0.3.0 field, not in a sibling's -/
+theorem C13_migration_fields_correspond : ∀ r ∈ Gen.UnmarshalHooks.migrationAssigns, (r.2.1 == r.2.2) = true := by decide
+
+example : ("logsConfigV02ToV03", "ErrorOutputPaths", "ErrorOutputPaths") ∈ Gen.UnmarshalHooks.migrationAssigns ∧
+    ("otlpV02ToV03", "Headers", "Headers") ∈ Gen.UnmarshalHooks.migrationAssigns ∧ Gen.UnmarshalHooks.migrationAssigns.length ≥ 60 := by decide
+
 /-- … hence per component, from the regenerated custom positions -/
 theorem C13_component_hooks_regenerated (custom : List (String × List String × String)) (comp : String) :
     componentHooksG custom comp = componentHooks custom comp := by
